@@ -127,9 +127,14 @@ impl<T: Qcow2IoOps> Qcow2Dev<T> {
             new_refblock.increment(i).unwrap();
         }
 
-        // the table as it is on disk now
-        let mut disk_rt =
-            RefTable::new(Some(rt_offset), grown_rt.byte_size(), info.block_size_shift);
+        // the table as it is on disk now; all of its clusters are written,
+        // the header declares the table in clusters and the next open loads
+        // them as a whole
+        let mut disk_rt = RefTable::new(
+            Some(rt_offset),
+            new_rt_clusters * info.cluster_size(),
+            info.block_size_shift,
+        );
         {
             let len = reftable.byte_size();
             let buf = unsafe { std::slice::from_raw_parts_mut(disk_rt.as_mut_ptr(), len) };
